@@ -327,12 +327,21 @@ func cmdCheck(args []string) {
 	replayRoot = filepath.Join(*outDir, "replays")
 	os.RemoveAll(filepath.Join(replayRoot, pd.ID)) // replay files of earlier runs are stale
 	res := evaluate(p, pd, encs, lists, tier, seed, stats, opts)
+	// bounded stand-ins for regexp-delegating functions (labelled bounded, never counted as discharged)
+	for _, bd := range loadBounded(*verif, pd.ID) {
+		br := runBounded(p.RepoDir, *verif, bd, tier)
+		res.bounded = append(res.bounded, br)
+		if !br.Ran || br.Failures > 0 {
+			res.lines = append(res.lines, boundedViolation(pd, br))
+			res.boundedViolations++
+		}
+	}
 	res.wall = time.Since(t0).Seconds()
 	writeEvidence(*outDir, p, pd, res, tier, seed, stats)
 	for _, l := range res.lines {
 		fmt.Println(l)
 	}
-	if len(res.violations) > 0 {
+	if len(res.violations) > 0 || res.boundedViolations > 0 {
 		if res.toolError != "" {
 			fmt.Fprintln(os.Stderr, "TOOL ERROR (in addition to the violations):", res.toolError)
 		}
@@ -430,6 +439,8 @@ type checkResult struct {
 	wall       float64
 	notes      []string
 	generated  int
+	bounded    []boundedResult
+	boundedViolations int
 }
 
 func evaluate(p *Prog, pd *PropDef, encs []*Enc, lists *CheckLists, tier string, seed int, stats *SolveStats, opts SolveOpts) *checkResult {
@@ -671,6 +682,16 @@ func writeEvidence(verifDir string, p *Prog, pd *PropDef, r *checkResult, tier s
 		Assumptions: assumptions,
 		WallS:       r.wall,
 		Violations:  len(r.violations),
+	}
+	if len(r.bounded) > 0 {
+		var bl []map[string]any
+		for _, br := range r.bounded {
+			bl = append(bl, map[string]any{"name": br.Def.Name, "label": "bounded: exhaustive up to the stated length only, NOT counted among the discharged obligations",
+				"statement": br.Def.Statement, "bound": fmt.Sprintf("%s (maximal length %d)", br.Def.Bound, br.N), "cases": br.Cases, "failures": br.Failures,
+				"ran": br.Ran, "seconds": br.Seconds, "failing_inputs": br.Fails})
+		}
+		ev.Coverage["bounded_checks"] = bl
+		ev.Violations += r.boundedViolations
 	}
 	b, _ := json.MarshalIndent(ev, "", " ")
 	tmp := filepath.Join(verifDir, "evidence", pd.ID+".json.tmp")
